@@ -100,8 +100,8 @@ def run(rep, tier, seed, model_ok):
         ratio = ts[1] / max(ts[0], 0.02)
         scaling[name] = {"seconds": [round(x, 3) for x in ts], "ratio": round(ratio, 2)}
         rep.count(("timing", name), nontrivial=True)
-        # 4x (8x) the size: linear would be ~4 (8); quadratic 16 (64).  Budget: 2.5x linear, and > 1 s absolute
-        if ratio > 2.5 * (sizes[1] / sizes[0]) and ts[1] > 1.0:
+        # 4x (8x) the size: linear would be ~4 (8); quadratic 16 (64).  Budget: 1.6x linear, and > 1 s absolute
+        if ratio > 1.6 * (sizes[1] / sizes[0]) and ts[1] > 1.0:
             rep.violation("run time of family '%s' grows faster than linearly: %r s for %r bytes" % (name, ts, sizes),
                           {"kind": "timing", "family": name, "sizes": sizes, "seconds": ts})
     rep.extra["scaling"] = scaling
